@@ -531,9 +531,9 @@ PROPS["C11"] = dict(
 
 PROPS["C02"] = dict(
     title="Acknowledged mode recovers from any bounded loss, duplication and reordering",
-    module="Cfdp.Props.C02w",
+    module="Cfdp.Props.C02s",
     namespace="Cfdp.Seg",
-    theorems=["C02_round_completes", "C02_gaps_answered", "Cfdp.Recv.C02_finishes_when_complete", "Cfdp.Recv.C02_never_waits_complete"],
+    theorems=["C02_round_completes", "C02_gaps_answered", "Cfdp.Recv.C02_finishes_when_complete", "Cfdp.Recv.C02_never_waits_complete", "Cfdp.Recv.C02_complete_is_success"],
     engines=["daemon", "recv", "send", "net"],
     design="§6 C02",
     technique="Lean 4 proofs of the recovery steps over the segment / receiver / sender models; the composition over a lossy link is checked on two real daemons under a virtual clock with bounded fault plans",
@@ -541,7 +541,7 @@ PROPS["C02"] = dict(
                 "the bytes of [0, size) it was missing, its segment list covers [0, size) (C02_round_completes), in particular for exact answers to the requests of one NAK "
                 "(C02_gaps_answered; the requests are exactly what is missing by C08_exact, the sender's answers carry exactly the requested bytes of the file by C07); in the "
                 "iteration in which the last missing piece arrives the receiver finalises, enters the Finished phase and queues the Finished PDU "
-                "(C02_finishes_when_complete), and along every history an acknowledged receiver that is still collecting although Metadata and EOF have arrived really misses file data - it never sits on a complete file (C02_never_waits_complete, invariant Waiting, Props/C02w.lean); every unanswered EOF / Finished / NAK is retransmitted once per timer expiry up to the limit (C17_*_ack_expiry, "
+                "(C02_finishes_when_complete), and along every history an acknowledged receiver that is still collecting although Metadata and EOF have arrived really misses file data - it never sits on a complete file (C02_never_waits_complete, invariant Waiting, Props/C02w.lean); and when the segment list covers [0, size) of a staging file that agrees with the source (C01's invariant), with the Metadata and a NoError EOF carrying the source's size and checksum, check_finished verifies the checksum, copies the file under the destination name (if the filestore lets it), records NoError / Complete / Retained, tells the user so and queues a Finished PDU saying the same (C02_complete_is_success, Props/C02s.lean; the checksum the receiver computes over the complete staging file is the one C07_eof puts in the EOF: fileChecksum_true, via C14); every unanswered EOF / Finished / NAK is retransmitted once per timer expiry up to the limit (C17_*_ack_expiry, "
                 "C17_send_eof_rearms, C08_queue_after_eof); duplicates and stragglers after completion change nothing (C04). PARTIAL: that these steps compose to completion "
                 "whenever fewer than `limit` consecutive transmissions of any PDU are lost is a liveness statement about two transaction models, the link and the scheduler; "
                 "it is not a theorem here. It is checked on the real code: the daemon engine runs acknowledged transfers between two real daemons with every kind of fault "
